@@ -4,6 +4,7 @@
 package main
 
 import (
+	"crypto"
 	"encoding"
 	"encoding/binary"
 	"fmt"
@@ -107,6 +108,10 @@ func chunking(r *hx.Rand, n, bs int, g *hx.Gen) []string {
 			ops = append(ops, "r")
 			g.Stat("mid-reset")
 		}
+		if r.Chance(1, 40) {
+			ops = append(ops, "z")
+			g.Stat("size-blocksize")
+		}
 	}
 	if r.Chance(1, 10) {
 		ops = append(ops, "s", "r", "s") // Reset at the end: digest of the empty message under the key
@@ -172,6 +177,16 @@ func genHist(g *hx.Gen) {
 				kl = r.Range(1, 32)
 			}
 		}
+	}
+	if r.Chance(1, 20) { // the registered constructors crypto.BLAKE2b_256/384/512, BLAKE2s_256 (unkeyed)
+		kl = 0
+		if alg == "b" {
+			ctor = r.PickStr("reg512", "reg384", "reg256")
+			size = map[string]int{"reg512": 64, "reg384": 48, "reg256": 32}[ctor]
+		} else {
+			ctor, size = "reg256", 32
+		}
+		g.Stat("ctor.registered")
 	}
 	key := r.Bytes(kl)
 	n := msgLen(r, bs)
@@ -309,6 +324,14 @@ func exec(line string) string {
 			h, err = blake2s.New256(key)
 		case "s.new128":
 			h, err = blake2s.New128(key)
+		case "b.reg512":
+			h = crypto.BLAKE2b_512.New()
+		case "b.reg384":
+			h = crypto.BLAKE2b_384.New()
+		case "b.reg256":
+			h = crypto.BLAKE2b_256.New()
+		case "s.reg256":
+			h = crypto.BLAKE2s_256.New()
 		default:
 			return "bad-op"
 		}
@@ -328,6 +351,8 @@ func exec(line string) string {
 				outs = append(outs, hx.Hex(h.Sum(nil)))
 			case op == "r":
 				h.Reset()
+			case op == "z":
+				outs = append(outs, fmt.Sprintf("z%d.%d", h.Size(), h.BlockSize()))
 			case op[0] == 'w':
 				var n int
 				fmt.Sscanf(op[1:], "%d", &n)
